@@ -1,5 +1,7 @@
 (* C03 - graceful terminate interrupts the target wherever it is and is reported as such.
-   Same generated skeletons and semantics as C01, with ONE asynchronous WorkerTerminatedError. *)
+   Same generated skeletons and semantics as C01 (thread, process and remote kinds), with ONE graceful terminate
+   request: raised directly in a thread child (AWTE); delivered by the child's own control thread in process and
+   remote children (ATerm: it turns into the exception only while that thread has not been released and joined). *)
 From PW Require Import Child.Sem Gen.Skel Child.Runs Child.Proofs.
 
 (* For every kind, one-shot or persistent, every target behaviour and EVERY statement boundary p
@@ -12,16 +14,22 @@ From PW Require Import Child.Sem Gen.Skel Child.Runs Child.Proofs.
      a failure (handler_window, the known finding C03-handler-window: landing there loses the
      report and the parent sees has_error True, error None). *)
 Theorem C03_every_landing_point :
-  forall k pers t p, start_point k <= p < BOUND -> c03_check (k, pers, t, p) = true.
+  forall k pers t p, start_point k <= p < BOUND_R -> c03_check (k, pers, t, p) = true.
 Proof. exact c03_every_landing. Qed.
 
 (* the request arrives while the target runs: always WorkerTerminatedError, finally blocks ran *)
 Theorem C03_inside_running_target :
   forall k pers,
-    let r := run k pers TLoop [(call_point k, AWTE)] in
+    let r := run k pers TLoop [(call_point k, term_action k)] in
     observe k true r = OErr (Some EWTE) /\ cleanup_ran (snd r) = true
-    /\ observe k true (run k pers TLoop [(S (call_point k), AWTE)]) = OAlive.
+    /\ observe k true (run k pers TLoop [(S (call_point k), term_action k)]) = OAlive.
 Proof. exact c03_inside_target. Qed.
+
+(* the remote kind has no such window: its handlers are nested, a request landing in the inner one is caught and
+   reported as WorkerTerminatedError by the outer one *)
+Theorem C03_remote_has_no_handler_window :
+  forall t p, p < BOUND_R -> handler_window KRemote t p = false.
+Proof. exact c03_remote_no_window. Qed.
 
 (* REFUTED in full: the target raised its own exception and the request lands inside the handler *)
 Theorem C03_refuted_handler_window :
@@ -30,4 +38,5 @@ Proof. exists KThread, 11. vm_compute. reflexivity. Qed.
 
 Print Assumptions C03_every_landing_point.
 Print Assumptions C03_inside_running_target.
+Print Assumptions C03_remote_has_no_handler_window.
 Print Assumptions C03_refuted_handler_window.
